@@ -24,7 +24,7 @@ ASSUMPTIONS = [
     "listings <= 12 instructions",
 ]
 POSITIONS = ["leading", "inner", "trailing", "repeated", "nested-or", "nested-and", "nested-any", "operand", "operand", "double", "not-not", "captures", "adjacent-nots", "repeated"]
-ARGS = ["decoy", "decoy", "site", "next", "group-match", "group-first-only", "item-ops"]
+ARGS = ["decoy", "decoy", "site", "next", "group-match", "group-first-only", "item-ops", "macro-times", "repeated-group-ranged-tail"]
 MUTATORS = ["none", "none", "none", "insert", "delete", "swap", "replace-copy", "extend-mn"]
 FLOORS = {f"pos={p}": 0.04 for p in set(POSITIONS)}
 FLOORS.update({f"arg={a}": 0.06 for a in set(ARGS)})
@@ -101,7 +101,7 @@ def cases(draw):
             d = describe_operand(draw, o, full[1])
             assume(d is not None)
             pre.append(d)
-        if arg in ("decoy", "group-match", "group-first-only"):
+        if arg in ("decoy", "group-match", "group-first-only", "macro-times", "repeated-group-ranged-tail"):
             x = decoy_operand(draw)
         elif arg in ("site", "item-ops"):
             x = describe_operand(draw, ops[q], full[1]) if q < len(ops) else decoy_operand(draw)
@@ -149,7 +149,36 @@ def cases(draw):
             NV = norm_view(L)
         else:
             s = draw(st.integers(i, j - 1))
-        x = make_arg(draw, arg, NV, s, full)
+        macros_, ref_x = None, None
+        if arg == "macro-times":
+            # the argument is a list-bodied macro invoked with times: $not[@m x2] is ONE instruction at which two consecutive @m do
+            # not start (not two instructions each of which is not @m)
+            body_ = describe_inst(draw, NV[s], full)
+            n_ = draw(st.sampled_from([2, 2, 3]))
+            x = {"@ynm_": {"times": n_}} if draw(st.booleans()) else {"@ynm_": [], "times": n_}
+            ref_x = {"$and": [body_], "times": n_}
+            macros_ = [{"name": "@ynm_", "pattern": [body_]}]
+            for _ in range(draw(st.sampled_from([0, 1, 1, 2]))):
+                L.insert(s + 1, ["0", L[s][1], list(L[s][2]), list(L[s][3])])  # a run of the instruction the macro describes
+            NV = norm_view(L)
+            j = min(len(L), j + 1)
+        elif arg == "repeated-group-ranged-tail":
+            # the argument is a group with an exact times whose last element carries a range: [I T{1,2}] x2 matches I T T I T
+            body_ = describe_inst(draw, NV[s], full)
+            t_ = draw(instruction_body())
+            tail_ = describe_inst(draw, ("0", t_[0], t_[2]), full)
+            tail_ = {list(tail_)[0]: tail_[list(tail_)[0]], "times": {"min": 1, "max": 2}} if isinstance(tail_, dict) else {tail_: {"times": {"min": 1, "max": 2}}}
+            x = {draw(st.sampled_from(["$and", "$and", "$or"])): [{"$and": [body_, tail_]}] if draw(st.booleans()) else [body_, tail_], "times": 2}
+            if list(x)[0] == "$or":
+                x = {"$and": [{"$and": [body_, tail_]}], "times": 2}
+            T_ = ["0", t_[0], list(t_[1]), list(t_[2])]
+            I_ = ["0", L[s][1], list(L[s][2]), list(L[s][3])]
+            shape_ = draw(st.sampled_from([[T_, T_, I_, T_], [T_, I_, T_], [T_, T_, I_], [T_, I_, T_, T_], [T_, T_]]))
+            L[s + 1:s + 1] = [list(r_) for r_ in shape_]
+            NV = norm_view(L)
+            j = min(len(L), j + 1)
+        else:
+            x = make_arg(draw, arg, NV, s, full)
         notnode = {"$not": [x]}
         if pos == "not-not":
             # a double negation still consumes exactly ONE instruction, however many its argument spans: it matches the
@@ -158,6 +187,7 @@ def cases(draw):
         descs = {k: describe_inst(draw, NV[k], full) for k in range(i, j)}
         if pos == "captures":
             x = draw(st.sampled_from([{"push": ["&ya"]}, {"$and": [{"push": ["&ya"]}, {"pop": ["&ya"]}]}, {"push": ["&ya"]}]))
+            macros_ = None  # this position has its own argument
             pattern = [descs[k] for k in range(i, s)] + [{"$not": [x]}, {"mov": ["&yb", "&yb"]}] + [descs[k] for k in range(s + 2, j)]
         elif pos == "repeated":
             # a run of instructions each consumed by one repetition of the $not
@@ -212,7 +242,7 @@ def cases(draw):
                 if k == s:
                     pattern.append(notnode)
                 elif k == s2:
-                    pattern.append({"$not": [make_arg(draw, draw(st.sampled_from(ARGS)), NV, k, full)]})
+                    pattern.append({"$not": [make_arg(draw, draw(st.sampled_from(ARGS[:7])), NV, k, full)]})
                 else:
                     pattern.append(descs[k])
         else:
@@ -239,8 +269,25 @@ def cases(draw):
     for rec in L:
         rec[0] = format(a, "x")
         a += draw(st.integers(1, 7))
-    assume(_names_ok(pattern))
-    return {"pos": pos, "arg": arg, "mut": mut, "listing": L, "pattern": pattern, "flags": list(full)}
+    out_ = {"pos": pos, "arg": arg, "mut": mut, "listing": L, "pattern": pattern, "flags": list(full)}
+    if pos not in ("operand",) and "macros_" in dir() and macros_ and "@ynm_" in repr(pattern):
+        import copy as _copy
+
+        def _swap(node):
+            if node == x:
+                return _copy.deepcopy(ref_x)
+            if isinstance(node, list):
+                return [_swap(y) for y in node]
+            if isinstance(node, dict):
+                return {k: _swap(v) for k, v in node.items()}
+            return node
+
+        out_["macros"] = macros_
+        out_["ref_pattern"] = _swap(pattern)
+        assume(_names_ok(out_["ref_pattern"]))
+    else:
+        assume(_names_ok(pattern))
+    return out_
 
 
 def strategy(tier):
@@ -261,14 +308,70 @@ class _AnyRef(Ref):
         return super().o1(name, body, ops, k, env)
 
 
+def eval_cut(case):
+    """A long listing in which the argument of a $not straddles a plausible chunk size: `lea` at cut-2, `push` at cut-1, `pop` at
+    cut, and the rule [lea, $not[$and[push, pop]]].  The negation looks at whole instructions to the right of its own - also when
+    they lie beyond a round number of instructions; a little further on the same `lea ; push` is followed by something else."""
+    from vlib import jasm_io
+    from vlib.render import render
+
+    ev = Eval()
+    cut = case["cut"]
+    NV = []
+    addr = 0x400000
+    for q in range(cut + 24):
+        m = {cut - 2: "lea", cut - 1: "push", cut: "pop", cut + 8: "lea", cut + 9: "push", cut + 10: "inc"}.get(q, "nop")
+        NV.append((format(addr, "x"), m, ["%rbx"] if m in ("push", "pop", "inc") else ["0x8(%rax)", "%rbx"] if m == "lea" else []))
+        addr += 1 + q % 2
+    pattern = [{"lea": ["rax"]}, {"$not": [{"$and": [{"push": ["rbx"]}, {"pop": ["rbx"]}]}]}]
+    text = render(NV)
+    want = [NV[cut + 8][0]]
+    ev.subcases = 0
+    for search in ("all", "first"):
+        r = jasm_io.match(jasm_io.make_doc(pattern), text, mode="list", search=search, only_addr=True)
+        ev.subcases += 1
+        if r[0] == "inconclusive":
+            ev.inconclusive += 1
+        elif r[0] == "exc":
+            ev.dev("exception", cut=cut, search=search, error=list(r[1:]))
+        elif r[1] != want:
+            ev.dev("not-across-cut", cut=cut, search=search, expected=want, observed=r[1][:4])
+    ev.tags = ["cut-listing"]
+    ev.nontrivial = True
+    ev.keys = [("cut", cut)]
+    return ev
+
+
+def _cut_worker(cut):
+    case = {"cut": cut}
+    return case, eval_cut(case)
+
+
+def extra(tier, seed, rep):
+    import multiprocessing as mp
+
+    from vlib import longlist
+
+    with mp.get_context("fork").Pool(16, maxtasksperchild=1) as pool:
+        for case, ev in pool.imap_unordered(_cut_worker, sorted(longlist.CUTS, reverse=True), chunksize=1):
+            rep.add_eval(case, ev)
+    rep.exhaustive_parts.append(f"long listings: a multi-instruction $not argument straddling each of the {len(longlist.CUTS)} chunk-size candidates")
+
+
 def evaluate(case):
+    if "cut" in case:
+        return eval_cut(case)
     ev = Eval()
     ev.subcases = 0
     L, pattern = case["listing"], case["pattern"]
     mn_full, op_full = case["flags"]
     flagged = mn_full or op_full
-    exp, spans, _ = compare(ev, pattern, L, mn_full if flagged else None, op_full if flagged else None)
-    anyv = bool(_AnyRef(norm_view(L), mn_full, op_full).spans(pattern))
+    ref_pattern = case.get("ref_pattern", pattern)
+    kw = {}
+    if case.get("macros"):
+        kw = {"doc_macros": case["macros"], "spans": Ref(norm_view(L), mn_full, op_full).spans(ref_pattern)}
+    exp, spans, _ = compare(ev, pattern, L, mn_full if flagged else None, op_full if flagged else None, **kw)
+    anyv = bool(_AnyRef(norm_view(L), mn_full, op_full).spans(ref_pattern))
     ev.tags = [f"pos={case['pos']}", f"arg={case['arg']}", f"mut={case['mut']}", "expect=found" if exp else "expect=notfound"]
     if anyv != exp:
         ev.tags.append("depends-on-not")
